@@ -182,7 +182,7 @@ theorem trigger_time (f : TFilter ℝ) (sf : Nat) (pos vel : Vec ℝ) (mach time
 
 theorem iterate_ok {r : Run ℝ} {ff : Flags} {sf : Nat} {l l' : LoopSt ℝ} (h : iterate r ff sf l = .ok l') :
     ∃ p flt' rows, physStep r l.s l.ws = some p ∧ recordStep r ff sf l p.density p.mach = .ok (flt', rows) ∧
-      l' = ⟨p.out.st, p.ws, flt', rows, p.out.drag, p.mach, p.density, p.out.speed⟩ := by
+      l' = ⟨p.out.st, p.ws, flt', rows, p.out.drag, p.mach, p.density, p.out.speed, l.s.pos.x⟩ := by
   unfold iterate at h
   split at h
   · cases h
@@ -328,7 +328,8 @@ def Fwd (r : Run ℝ) (e adv : ℝ) : Prop :=
       s.pos.x < p.out.st.pos.x ∧ p.out.st.pos.x - s.pos.x ≤ adv ∧ s.time < p.out.st.time ∧ p.mach ≠ 0
 
 /-- Invariant at the top of a loop iteration, `k ≥ 1` rows recorded so far; the filter's `prevPos/prevTime`
-    are those of the last processed state, `l.s` is the state about to be processed. -/
+    are those of the last processed state (whose `x` is also `l.lastX` and is at most `bound`), `l.s` is the state
+    about to be processed. -/
 structure Inv (r : Run ℝ) (e step adv bound : ℝ) (l : LoopSt ℝ) (k : Nat) : Prop where
   kpos : 1 ≤ k
   nrd : l.flt.nextRecordDistance = k * step
@@ -338,6 +339,7 @@ structure Inv (r : Run ℝ) (e step adv bound : ℝ) (l : LoopSt ℝ) (k : Nat) 
   prev_lt : l.flt.prevPos.x < k * step
   prev_ge : ((k : ℝ) - 1) * step ≤ l.flt.prevPos.x
   prev_bd : l.flt.prevPos.x ≤ bound
+  last : l.lastX = l.flt.prevPos.x
   reach : ∃ m, physIter r m (initialState r e) (WindSock.init r.winds r.maxWindDist) = some (l.s, l.ws)
   x_lt : l.flt.prevPos.x < l.s.pos.x
   x_adv : l.s.pos.x - l.flt.prevPos.x ≤ adv
@@ -378,7 +380,7 @@ theorem Inv.step {r : Run ℝ} {e step adv bound : ℝ} {sf : Nat} {l l' : LoopS
     subst hrows'
     rw [← hflt] at dn drs dts dfil dpp dpt
     simp only [cleared_nrd, cleared_rs, cleared_ts, cleared_fil] at dn drs dts dfil
-    refine ⟨hI.kpos, ?_, ?_, ?_, ?_, ?_, ?_, ?_, ⟨m + 1, hreach'⟩, ?_, ?_, ?_, hI.len, hI.rowsOK, hI.mono, ?_,
+    refine ⟨hI.kpos, ?_, ?_, ?_, ?_, ?_, ?_, ?_, ?_, ⟨m + 1, hreach'⟩, ?_, ?_, ?_, hI.len, hI.rowsOK, hI.mono, ?_,
       hI.first⟩ <;> dsimp only
     · rw [dn, hI.nrd]
     · rw [drs, hI.rs]
@@ -387,6 +389,7 @@ theorem Inv.step {r : Run ℝ} {e step adv bound : ℝ} {sf : Nat} {l l' : LoopS
     · rw [dpp]; exact hc
     · rw [dpp]; linarith [hI.prev_ge, hI.x_lt]
     · rw [dpp]; exact hx
+    · rw [dpp]
     · rw [dpp]; exact f1
     · rw [dpp]; exact f2
     · rw [dpt]; exact f3
@@ -417,7 +420,7 @@ theorem Inv.step {r : Run ℝ} {e step adv bound : ℝ} {sf : Nat} {l l' : LoopS
     rw [cleared_prevTime, cleared_nrd, hI.nrd] at rt
     rw [hdx] at rd
     rw [← rt] at ht1 ht2
-    refine ⟨by omega, ?_, ?_, ?_, ?_, ?_, ?_, ?_, ⟨m + 1, hreach'⟩, ?_, ?_, ?_, ?_, ?_, ?_, ?_, ?_⟩ <;> dsimp only
+    refine ⟨by omega, ?_, ?_, ?_, ?_, ?_, ?_, ?_, ?_, ⟨m + 1, hreach'⟩, ?_, ?_, ?_, ?_, ?_, ?_, ?_, ?_⟩ <;> dsimp only
     · rw [dn, hI.nrd, hI.rs]; push_cast; ring
     · rw [drs, hI.rs]
     · rw [dts, hI.ts]
@@ -425,6 +428,7 @@ theorem Inv.step {r : Run ℝ} {e step adv bound : ℝ} {sf : Nat} {l l' : LoopS
     · rw [dpp]; push_cast; exact hup
     · rw [dpp]; push_cast; linarith
     · rw [dpp]; exact hx
+    · rw [dpp]
     · rw [dpp]; exact f1
     · rw [dpp]; exact f2
     · rw [dpt]; exact f3
@@ -467,7 +471,7 @@ noncomputable def l0 (r : Run ℝ) (e step : ℝ) : LoopSt ℝ :=
   ⟨initialState r e, WindSock.init r.winds r.maxWindDist,
    (TFilter.init fRANGE step (initialState r e).pos (initialState r e).vel 0).setupSeenZero
       (initialState r e).pos.y e r.proj.lookAngle,
-   [], 0.0, 0.0, 0.0, r.muzzleVelocity⟩
+   [], 0.0, 0.0, 0.0, r.muzzleVelocity, (initialState r e).pos.x⟩
 
 /-- the first iteration records the muzzle row -/
 theorem Inv.base {r : Run ℝ} {e step adv bound : ℝ} {sf : Nat} {l1 : LoopSt ℝ}
@@ -507,7 +511,7 @@ theorem Inv.base {r : Run ℝ} {e step adv bound : ℝ} {sf : Nat} {l1 : LoopSt 
   rw [e_x] at rd
   rw [e_x] at f1 f2
   rw [e_t] at f3
-  refine ⟨le_refl _, ?_, ?_, ?_, ?_, ?_, ?_, ?_, ⟨1, hreach'⟩, ?_, ?_, ?_, ?_, ?_, ?_, ?_, ?_⟩ <;> dsimp only
+  refine ⟨le_refl _, ?_, ?_, ?_, ?_, ?_, ?_, ?_, ?_, ⟨1, hreach'⟩, ?_, ?_, ?_, ?_, ?_, ?_, ?_, ?_⟩ <;> dsimp only
   · rw [dn]; push_cast; ring
   · exact drs
   · exact dts
@@ -515,6 +519,7 @@ theorem Inv.base {r : Run ℝ} {e step adv bound : ℝ} {sf : Nat} {l1 : LoopSt 
   · rw [dpp, e_x]; push_cast; linarith
   · rw [dpp, e_x]; push_cast; linarith
   · rw [dpp, e_x]; exact hbound
+  · rw [dpp]
   · rw [dpp, e_x]; exact f1
   · rw [dpp, e_x]; exact f2
   · rw [dpt, e_t]; exact f3
@@ -537,10 +542,11 @@ theorem Inv.base {r : Run ℝ} {e step adv bound : ℝ} {sf : Nat} {l1 : LoopSt 
     rw [dpt, e_t, rt]
   · exact ⟨row, rfl, rt, rh, rv⟩
 
-/-- `loop` preserves any invariant of `iterate` and stops only beyond the bound -/
-theorem loop_inv {r : Run ℝ} {ff : Flags} {sf : Nat} {bound : ℝ} (P : LoopSt ℝ → Prop)
-    (hP : ∀ l l', P l → l.s.pos.x ≤ bound → iterate r ff sf l = .ok l' → P l') :
-    ∀ (fuel : Nat) (l l' : LoopSt ℝ), P l → loop r ff sf bound fuel l = .ok l' → P l' ∧ bound < l'.s.pos.x := by
+/-- `loop` preserves any invariant of `iterate` and stops only beyond the bound with the range reached -/
+theorem loop_inv {r : Run ℝ} {ff : Flags} {sf : Nat} {bound maxRange : ℝ} (P : LoopSt ℝ → Prop)
+    (hP : ∀ l l', P l → (l.s.pos.x ≤ bound ∨ l.lastX < maxRange) → iterate r ff sf l = .ok l' → P l') :
+    ∀ (fuel : Nat) (l l' : LoopSt ℝ), P l → loop r ff sf bound maxRange fuel l = .ok l' →
+      P l' ∧ bound < l'.s.pos.x ∧ maxRange ≤ l'.lastX := by
   intro fuel
   induction fuel with
   | zero => intro l l' _ h; simp [loop] at h
@@ -553,49 +559,56 @@ theorem loop_inv {r : Run ℝ} {ff : Flags} {sf : Nat} {bound : ℝ} (P : LoopSt
       · rename_i l1 h1
         exact ih l1 l' (hP l l1 hl hx h1) h
     · cases h
-      exact ⟨hl, not_le.mp hx⟩
+      rw [not_or, not_le, not_lt] at hx
+      exact ⟨hl, hx.1, hx.2⟩
 
 
-/-- the successful run of a plain range request ends in a state satisfying the invariant, beyond the bound,
-    and returns exactly the recorded rows -/
-theorem integrate_inv {r : Run ℝ} {e maxRange step : ℝ} {fuel sf : Nat} {rows : List (Row ℝ)}
-    (hstep : 0 < step) (hrange : step ≤ maxRange) (hcs : 0 < r.cfg.calcStep)
-    (hfwd : Fwd r e (minOf r.cfg.calcStep step))
+/-- the successful run of a plain range request ends in a state satisfying the invariant, the last processed
+    state at or beyond the range, and returns exactly the recorded rows -/
+theorem integrate_inv {r : Run ℝ} {e maxRange step adv : ℝ} {fuel sf : Nat} {rows : List (Row ℝ)}
+    (hstep : 0 < step) (hrange : step ≤ maxRange) (hcs : 0 < r.cfg.calcStep) (hadv : adv ≤ step)
+    (hfwd : Fwd r e adv)
     (h : integrate r e maxRange step fRANGE 0 fuel sf = .ok rows) :
-    ∃ l k, Inv r e step (minOf r.cfg.calcStep step) (maxRange + minOf r.cfg.calcStep step) l k ∧
-      maxRange + minOf r.cfg.calcStep step < l.s.pos.x ∧ 2 ≤ k ∧ rows = l.rows.reverse := by
-  have hadv0 : 0 < minOf r.cfg.calcStep step := minOf_pos hcs hstep
-  have hadv1 : minOf r.cfg.calcStep step ≤ step := minOf_le_right _ _
+    ∃ l k, Inv r e step adv (maxRange + max adv (minOf r.cfg.calcStep step)) l k ∧
+      maxRange ≤ l.flt.prevPos.x ∧ 2 ≤ k ∧ rows = l.rows.reverse := by
+  have hmin0 : 0 < minOf r.cfg.calcStep step := minOf_pos hcs hstep
+  have hmaxl : adv ≤ max adv (minOf r.cfg.calcStep step) := le_max_left _ _
+  have hmaxr : minOf r.cfg.calcStep step ≤ max adv (minOf r.cfg.calcStep step) := le_max_right _ _
   unfold integrate at h
   dsimp only at h
   split at h
   · cases h
   rename_i lf hloop
-  change loop r fRANGE sf (maxRange + minOf r.cfg.calcStep step) fuel (l0 r e step) = .ok lf at hloop
-  obtain ⟨k, hI, hexit⟩ : ∃ k, Inv r e step (minOf r.cfg.calcStep step) (maxRange + minOf r.cfg.calcStep step) lf k ∧
-      maxRange + minOf r.cfg.calcStep step < lf.s.pos.x := by
+  change loop r fRANGE sf (maxRange + minOf r.cfg.calcStep step) maxRange fuel (l0 r e step) = .ok lf at hloop
+  obtain ⟨k, hI, hexit⟩ : ∃ k, Inv r e step adv (maxRange + max adv (minOf r.cfg.calcStep step)) lf k ∧
+      maxRange ≤ lf.lastX := by
     cases fuel with
     | zero => simp [loop] at hloop
     | succ fuel =>
       unfold loop at hloop
       have hb0 : (l0 r e step).s.pos.x ≤ maxRange + minOf r.cfg.calcStep step := by
         rw [show (l0 r e step).s.pos.x = 0 from lit0]; linarith
-      rw [if_pos hb0] at hloop
+      rw [if_pos (Or.inl hb0)] at hloop
       split at hloop
       · cases hloop
       rename_i l1 h1
-      have hbase : Inv r e step (minOf r.cfg.calcStep step) (maxRange + minOf r.cfg.calcStep step) l1 1 :=
+      have hbase : Inv r e step adv (maxRange + max adv (minOf r.cfg.calcStep step)) l1 1 :=
         Inv.base hstep (by linarith) hfwd h1
-      obtain ⟨⟨k, hk⟩, hex⟩ := loop_inv
-        (P := fun l => ∃ k, Inv r e step (minOf r.cfg.calcStep step) (maxRange + minOf r.cfg.calcStep step) l k)
+      obtain ⟨⟨k, hk⟩, _, hex⟩ := loop_inv
+        (P := fun l => ∃ k, Inv r e step adv (maxRange + max adv (minOf r.cfg.calcStep step)) l k)
         (by
           rintro l l' ⟨k, hk⟩ hx hit
-          rcases Inv.step hstep hadv1 hfwd hk hx hit with h' | h'
+          have hx' : l.s.pos.x ≤ maxRange + max adv (minOf r.cfg.calcStep step) := by
+            rcases hx with hx | hx
+            · linarith
+            · rw [hk.last] at hx
+              linarith [hk.x_adv]
+          rcases Inv.step hstep hadv hfwd hk hx' hit with h' | h'
           · exact ⟨k, h'⟩
           · exact ⟨k + 1, h'⟩)
         fuel l1 lf ⟨1, hbase⟩ hloop
       exact ⟨k, hk, hex⟩
-  have hprev : maxRange < lf.flt.prevPos.x := by linarith [hI.x_adv]
+  have hprev : maxRange ≤ lf.flt.prevPos.x := by rw [← hI.last]; exact hexit
   have hk2 : 2 ≤ k := by
     by_contra hcon
     have hk1 : k = 1 := by have := hI.kpos; omega
@@ -603,7 +616,7 @@ theorem integrate_inv {r : Run ℝ} {e maxRange step : ℝ} {fuel sf : Nat} {row
     rw [hk1] at this
     push_cast at this
     linarith
-  refine ⟨lf, k, hI, hexit, hk2, ?_⟩
+  refine ⟨lf, k, hI, hprev, hk2, ?_⟩
   have hlen := hI.len
   split at h
   · cases h; rfl
@@ -620,22 +633,21 @@ theorem getD_of_lt (rows : List (Row ℝ)) (j : Nat) (hj : j < rows.length) :
   rw [List.getD_eq_getElem?_getD, List.getElem?_eq_getElem hj, Option.getD_some]
 
 /-- the statement of `C03_rows_exact` (with `Fwd` for `Forward`) -/
-theorem rows_exact (r : Run ℝ) (e maxRange step : ℝ) (fuel sf : Nat) (rows : List (Row ℝ))
-    (hstep : 0 < step) (hrange : step ≤ maxRange) (hcs : 0 < r.cfg.calcStep)
-    (hfwd : Fwd r e (minOf r.cfg.calcStep step))
+theorem rows_exact (r : Run ℝ) (e maxRange step adv : ℝ) (fuel sf : Nat) (rows : List (Row ℝ))
+    (hstep : 0 < step) (hrange : step ≤ maxRange) (hcs : 0 < r.cfg.calcStep) (hadv : adv ≤ step)
+    (hfwd : Fwd r e adv)
     (h : integrate r e maxRange step fRANGE 0 fuel sf = .ok rows) :
     ∃ K : Nat, 1 ≤ K ∧ rows.length = K + 1 ∧
       (∀ k, k ≤ K → (rows.getD k default).distance = (k : ℝ) * step * 12) ∧
-      maxRange < ((K : ℝ) + 1) * step ∧ (K : ℝ) * step ≤ maxRange + minOf r.cfg.calcStep step ∧
+      maxRange < ((K : ℝ) + 1) * step ∧ (K : ℝ) * step ≤ maxRange + max adv (minOf r.cfg.calcStep step) ∧
       (∀ k, k < K → (rows.getD k default).time < (rows.getD (k + 1) default).time) ∧
       (rows.getD 0 default).time = 0 ∧
       (rows.getD 0 default).height = (initialState r e).pos.y * 12 ∧
       (rows.getD 0 default).velocity = (initialState r e).vel.mag / 3.2808399 ∧
       (∀ k, k ≤ K → (rows.getD k default).flag.range = true) := by
-  obtain ⟨l, k, hI, hexit, hk2, rfl⟩ := integrate_inv hstep hrange hcs hfwd h
+  obtain ⟨l, k, hI, hprev, hk2, rfl⟩ := integrate_inv hstep hrange hcs hadv hfwd h
   obtain ⟨K, rfl⟩ : ∃ K, k = K + 1 := ⟨k - 1, by omega⟩
   have hlen : l.rows.reverse.length = K + 1 := by rw [List.length_reverse, hI.len]
-  have hprev : maxRange < l.flt.prevPos.x := by linarith [hI.x_adv]
   have hlt := hI.prev_lt
   have hge := hI.prev_ge
   push_cast at hlt hge
